@@ -63,6 +63,8 @@ def _to_python(text):
                 stack[-1] = ''
             out.append(',')
             i += 1
+            if i < n and text[i] in ';)':
+                out.append(' None')       # an open slice bound: SLICE(x;;-1)
             continue
         elif ch == ' ' and stack and stack[-1] == 'hdr' and text.startswith(' if ', i):
             out.append(' and ')
